@@ -582,38 +582,52 @@ func eventCodecs(r *mc.Run) {
 				PlatformManufacturerStr: eventlog.ByteSizedCStr{Data: man}, PlatformModel: eventlog.ByteSizedCStr{Data: "m"}, FirmwareManufacturerStr: eventlog.ByteSizedCStr{Data: man},
 				FirmwareManufacturerID: 11129, FirmwareVersion: eventlog.ByteSizedCStr{Data: "2.7"}, RIMLocatorType: eventlog.RIMLocationRaw, RIMLocator: eventlog.Uint32SizedArray{Data: loc}}
 		}
-		for shift := 0; shift < 64; shift++ {
-			shift := shift
-			check(r, fmt.Sprintf("tcg-log-file blocks=several shift=%d", shift), func() string {
-				l := &eventlog.CryptoAgileLog{Header: eventlog.TCGPCClientPCREvent{EventType: eventlog.EvNoAction, EventData: eventlog.TCGEventData{Event: &eventlog.UnknownEvent{Data: []byte("Spec ID Event03\x00")}}}}
-				add := func(e *eventlog.SP800155Event3) {
-					l.Events = append(l.Events, &eventlog.TCGPCREvent2{EventType: eventlog.EvNoAction,
-						Digests:   eventlog.Uint32SizedArrayT[*eventlog.TaggedDigest]{Array: []*eventlog.TaggedDigest{{AlgID: 4, Digest: bytes.Repeat([]byte{1}, 20)}, {AlgID: 0xb, Digest: bytes.Repeat([]byte{2}, 32)}, {AlgID: 0xc, Digest: bytes.Repeat([]byte{3}, 48)}}},
-						EventData: eventlog.TCGEventData{Event: e}})
-				}
-				add(ev3("Filler Corp", bytes.Repeat([]byte{0xF1}, shift)))
-				for i := 0; i < 50; i++ {
-					add(ev3("Filler Corp", []byte("filler")))
-				}
-				add(ev3(extract.GCEFirmwareManufacturer, blob))
-				var enc bytes.Buffer
-				if err := l.Marshal(&enc); err != nil {
-					r.Violation("tcglog-file/marshal", "tcg log file", err.Error(), nil)
-					return "err"
-				}
-				mem := &eventlog.CryptoAgileLog{}
-				if err := mem.Unmarshal(bytes.NewReader(enc.Bytes())); err != nil || len(mem.Events) != len(l.Events) {
-					r.Violation("tcglog/roundtrip", "tcg log", fmt.Sprintf("a %d-byte log does not decode from memory: %v", enc.Len(), err), nil)
-					return "err"
-				}
-				p := filepath.Join(dir, fmt.Sprintf("log-%d.bin", shift))
-				os.WriteFile(p, enc.Bytes(), 0o644)
-				got, err := extract.Endorsement(&extract.Options{EventLogLocation: p, FirmwareManufacturer: extract.GCEFirmwareManufacturer})
-				if err != nil || !bytes.Equal(got, blob) {
-					r.Violation("tcglog-file/encoded-log-not-decoded-from-file", "tcg log file", fmt.Sprintf("a %d-byte log the encoder produced (it decodes from memory) is not decoded when read from a file: %v", enc.Len(), err), nil)
-				}
-				return fmt.Sprint(enc.Len())
-			})
+		// two families: several 4 KiB blocks (51 foreign events, every alignment of 64), and more than
+		// 64 KiB (430 foreign events, alignments over 256 bytes - longer than one event)
+		type family struct {
+			name               string
+			fill, shifts, step int
+			atLeast            int
+		}
+		fams := []family{{"several", 50, 64, 1, 8 << 10}, {"beyond-64KiB", 430, 256, mc.Pick(r, 4, 1), 70 << 10}}
+		for _, fam := range fams {
+			for shift := 0; shift < fam.shifts; shift += fam.step {
+				shift, fam := shift, fam
+				check(r, fmt.Sprintf("tcg-log-file blocks=%s shift=%d", fam.name, shift), func() string {
+					l := &eventlog.CryptoAgileLog{Header: eventlog.TCGPCClientPCREvent{EventType: eventlog.EvNoAction, EventData: eventlog.TCGEventData{Event: &eventlog.UnknownEvent{Data: []byte("Spec ID Event03\x00")}}}}
+					add := func(e *eventlog.SP800155Event3) {
+						l.Events = append(l.Events, &eventlog.TCGPCREvent2{EventType: eventlog.EvNoAction,
+							Digests:   eventlog.Uint32SizedArrayT[*eventlog.TaggedDigest]{Array: []*eventlog.TaggedDigest{{AlgID: 4, Digest: bytes.Repeat([]byte{1}, 20)}, {AlgID: 0xb, Digest: bytes.Repeat([]byte{2}, 32)}, {AlgID: 0xc, Digest: bytes.Repeat([]byte{3}, 48)}}},
+							EventData: eventlog.TCGEventData{Event: e}})
+					}
+					add(ev3("Filler Corp", bytes.Repeat([]byte{0xF1}, shift)))
+					for i := 0; i < fam.fill; i++ {
+						add(ev3("Filler Corp", []byte("filler")))
+					}
+					add(ev3(extract.GCEFirmwareManufacturer, blob))
+					var enc bytes.Buffer
+					if err := l.Marshal(&enc); err != nil {
+						r.Violation("tcglog-file/marshal", "tcg log file", err.Error(), nil)
+						return "err"
+					}
+					if enc.Len() < fam.atLeast {
+						mc.Fatal("log family %s: only %d bytes", fam.name, enc.Len())
+					}
+					mem := &eventlog.CryptoAgileLog{}
+					if err := mem.Unmarshal(bytes.NewReader(enc.Bytes())); err != nil || len(mem.Events) != len(l.Events) {
+						r.Violation("tcglog/roundtrip", "tcg log", fmt.Sprintf("a %d-byte log does not decode from memory: %v", enc.Len(), err), nil)
+						return "err"
+					}
+					p := filepath.Join(dir, fmt.Sprintf("log-%s-%d.bin", fam.name, shift))
+					os.WriteFile(p, enc.Bytes(), 0o644)
+					got, err := extract.Endorsement(&extract.Options{EventLogLocation: p, FirmwareManufacturer: extract.GCEFirmwareManufacturer})
+					if err != nil || !bytes.Equal(got, blob) {
+						r.Violation("tcglog-file/encoded-log-not-decoded-from-file", "tcg log file", fmt.Sprintf("a %d-byte log the encoder produced (it decodes from memory) is not decoded when read from a file: %v", enc.Len(), err), nil)
+					}
+					os.Remove(p)
+					return fmt.Sprint(enc.Len())
+				})
+			}
 		}
 	}
 	// Size-prefixed primitives.
